@@ -141,6 +141,16 @@ func (c *Config) ReadConfig(configFilePath string, flagSet *pflag.FlagSet, categ
 		return fmt.Errorf("unable to unmarshal config: %w", err)
 	}
 
+	// The Ethereum and Bitcoin networks are determined exclusively by the
+	// network flags. Make sure they were not overwritten while unmarshaling
+	// a config file that happens to define the `network` key of the
+	// `ethereum` or `bitcoin` section; otherwise the two chains and the
+	// defaults resolved below could belong to different networks.
+	if flagSet != nil {
+		c.Ethereum.Network = clientNetwork.Ethereum()
+		c.Bitcoin.Network = clientNetwork.Bitcoin()
+	}
+
 	// Resolve contracts addresses.
 	c.resolveContractsAddresses()
 
